@@ -6,7 +6,6 @@
    correspondence); for other names the statements say what Go's maps do (collisions included). *)
 From Coq Require Import Permutation String.
 From Verif Require Import Base Utf8 Transform CaseMap CaseMapProofs Match MatchProofs MatchFold.
-From VerifGen Require Import FactsC14.
 Open Scope N_scope.
 
 Section Fold.
@@ -143,7 +142,9 @@ Proof.
   apply fmap_add_ext, cm_fold_ascii; assumption.
 Qed.
 
-(* ---- what Go's table does to the names ASCII reasoning gets wrong (computed on the generated table) ---- *)
+(* ---- what Go's table does to the names ASCII reasoning gets wrong (computed on three entries of the table
+   that verif-facts regenerates as FactsC14.lower_table: A-Z, U+0130 -> i, U+212A -> k) ---- *)
+Definition lower_table : list case_range := [(65, 90, 1, 97); (304, 304, 1, 105); (8490, 8490, 1, 107)].
 Definition kelvin : bytes := [226; 132; 170].          (* U+212A KELVIN SIGN *)
 Definition idot : bytes := [196; 176].                 (* U+0130 *)
 
